@@ -13,7 +13,7 @@ chk("C01", "exploration",
     "runtime monitoring: differential oracle over produced bytes and reader event sequences (reference codec)", "DESIGN.md §6 C01")
 
 chk("C02", "exploration",
-    "Runtime monitor over mutated archives: EVERY proper prefix and every byte (one bit quick / all 8 bits thorough) of seeded small valid CARv1/CARv2 archives, plus random mutations, through 10 scanning readers; oracles: every returned block re-hashed with stdlib hashes, reference section table decides whether a cut/flip must be reported, returned blocks must be a prefix of the original sequence. Enumeration is total per archive, archives are sampled.",
+    "Runtime monitor over mutated archives: EVERY proper prefix and every byte (one bit quick / all 8 bits thorough) of seeded small valid CARv1/CARv2 archives, plus random mutations, through 17 scanning readers (v2 BlockReader on seekable/plain/1-byte/bufio/data+EOF sources with and without ZeroLengthSectionAsEOF, carv1 reader, root CarReader/LoadCar, Inspect(true)); archives with one large section are sampled at offsets; oracles: every returned block re-hashed with stdlib hashes, reference section table decides whether a cut/flip must be reported, returned blocks must be a prefix of the original sequence. Enumeration is total per archive, archives are sampled.",
     "trusts refcar's section table and stdlib/x-crypto hashes; cuts on section boundaries and past a CARv2 payload are exempt as the property states; zero-length (fully truncated) digests verify vacuously as multihash defines",
     "runtime monitoring: exhaustive truncation/bit-flip fault injection per archive with hash and clean-end oracles", "DESIGN.md §6 C02")
 
@@ -27,7 +27,7 @@ chk("C14", "exploration",
     "runtime monitoring: exhaustive operation-string enumeration per archive with reference-table oracle and byte counters on the source", "DESIGN.md §6 C14")
 
 chk("C10", "exploration",
-    "Runtime monitor with pure byte oracles: for seeded CARv1 payloads x, WrapV1/WrapV1File output must be pragma ‖ header(51,len,51+len) ‖ x ‖ index (index checked against a reference scan), ExtractV1File of 4 CARv2 renderings into 4 destination states (absent, larger, smaller, in place) must yield exactly x and leave the source alone, a CARv1 source must be refused without touching files, and ReplaceRootsInFile must change only the header bytes when the encoded header length is unchanged and otherwise fail leaving the file byte-identical.",
+    "Runtime monitor with pure byte oracles: for seeded CARv1 payloads x, WrapV1/WrapV1File output must be pragma ‖ header(51,len,51+len) ‖ x ‖ index (index checked against a reference scan), ExtractV1File of 4 CARv2 renderings (and of a wrapped null-padded source) into 7 destination states (absent, larger, smaller, in place, in place through a relative alias, a symlink and a hard link of the source) must yield exactly x and leave the source alone, a CARv1 source must be refused without touching files, and ReplaceRootsInFile must change only the header bytes when the encoded header length is unchanged and otherwise fail leaving the file byte-identical.",
     "trusts refcar's CARv2 renderings and header encoder",
     "runtime monitoring: byte-equality oracles on files before/after each transform", "DESIGN.md §6 C10")
 chk("C11", "exploration",
@@ -50,7 +50,7 @@ chk("C15", "exploration",
     "runtime monitoring: recorded load log at the link-system boundary vs reference-decoded output bytes and announced sizes", "DESIGN.md §6 C15")
 
 chk("C04", "exploration",
-    "Runtime monitor against an executable reference model: EVERY history of length ≤ 3 (quick) / ≤ 4 (thorough) over {Put of 9 designed blocks, 2 PutMany batches, Finalize, FinalizeReadOnly, Close, Discard} x 10/14 option configurations x {blockstore.ReadWrite, storage.StorageCar on a memfile}, plus random histories of length 10-60; after every step all lookups (Has/Get/GetSize of 9 keys, AllKeysChan, Roots) and the payload bytes on file are compared with the model; after a terminal operation all operations are re-run (errors required, file frozen). Exhaustive within the stated bound only.",
+    "Runtime monitor against an executable reference model: EVERY history of length ≤ 3 (quick) / ≤ 4 (thorough) over {Put of 9 designed blocks, 2 PutMany batches, Finalize, FinalizeReadOnly, Close, Discard} x 10/14 option configurations x {blockstore.ReadWrite, storage.StorageCar on a memfile, storage.StorageCar on a caller-owned *os.File}, plus random histories of length 10-60; after every step all lookups (Has/Get/GetSize of 9 keys, AllKeysChan, Roots) and the payload bytes on file are compared with the model; after a terminal operation all operations are re-run (errors required, file frozen). Exhaustive within the stated bound only.",
     "trusts the model (harness/internal/lab/model.go: documented admission rules) and refcar; answers are compared against admissible sets so that the model never demands more than the statement",
     "runtime monitoring: step-by-step comparison of public API results and file bytes with an executable map model over exhaustively enumerated short histories", "DESIGN.md §6 C04")
 chk("C19", "exploration",
@@ -67,17 +67,17 @@ chk("C12", "exploration",
     "byte equality only; permuted roots and changed multiplicity of duplicated roots are not counted as mismatches",
     "runtime monitoring: exhaustive interruption-string enumeration with byte-equality oracle", "DESIGN.md §6 C12")
 chk("C20", "exploration",
-    "Runtime monitor against an executable model: ALL op strings of length ≤ 4 (quick) / ≤ 6 (thorough) over {OnPut(once), OnPut(always), Has x2, Put x3, Close} x 5 targets (path v1/v2/v2+options, stream, stream+options) plus random longer strings; after every step: nothing written / no file before the first Put, output bytes equal to a directly constructed writer fed the same puts, callback log equal to the model's, closed-error after Close.",
+    "Runtime monitor against an executable model: ALL op strings of length ≤ 4 (quick) / ≤ 6 (thorough) over {OnPut(once), OnPut(always), Has x2, Put x3, Close} x 6 targets (path v1/v2/v2+options, stream, stream+options, stream that is also an io.WriterAt in CARv2 mode; path targets also over a pre-existing file) plus random longer strings; after every step: nothing written / no file before the first Put, output bytes equal to a directly constructed writer fed the same puts, callback log equal to the model's, closed-error after Close.",
     "the direct writer is the oracle for bytes (itself judged by C01/C05)",
     "runtime monitoring: step-by-step comparison with an executable model and a twin direct writer over exhaustively enumerated op strings", "DESIGN.md §6 C20")
 
 chk("C16", "fault_enumeration",
-    "Runtime fault injection: the fault-free run of each seeded session (open, 1-5 puts, finalize) yields its list of write calls; EVERY write call is then failed once with accepted byte counts {0, mid, len-1} (quick) or every count (thorough third), with and without retrying the failed block, plus fault pairs (thorough), on 5 targets: StorageCar over a WriterAt memfile, over a plain io.Writer, deferred stream writer, blockstore.ReadWrite with Put and with PutMany (faults injected through the verif write hook, whose trace is checked for completeness against the file). Monitors: the API call during which the writer failed returns an error; Has(failed block) is false unless stored earlier; if all later calls succeed the finalized archive decodes strictly, holds exactly the acknowledged blocks, a matching index and a consistent header.",
+    "Runtime fault injection: the fault-free run of each seeded session (open, 1-5 puts, finalize) yields its list of write calls; EVERY write call is then failed once with accepted byte counts {0, mid, len-1} (quick) or every count (thorough third), with and without retrying the failed block, plus fault pairs (thorough), on 5 targets: StorageCar over a WriterAt memfile, over a plain io.Writer, deferred stream writer, blockstore.ReadWrite with Put and with PutMany (faults injected through the verif write hook, whose trace is checked for completeness against the file), plus a hook-independent cross-check in which the KERNEL makes the fault: an untapped child lowers RLIMIT_FSIZE to 'file size + k' around one Put (EFBIG / short write as on a full disk). Monitors: the API call during which the writer failed returns an error; Has(failed block) is false unless stored earlier; if all later calls succeed the finalized archive decodes strictly, holds exactly the acknowledged blocks, a matching index and a consistent header.",
     "fault model = transient error with k < len bytes accepted on one write call; trusts refcar, lab.Model, the memfile and (up to the completeness check) the verif hook",
     "runtime monitoring: enumerated write-fault injection with acked-set bookkeeping and reference decode of the final bytes", "DESIGN.md §6 C16")
 
 chk("C06", "fault_enumeration",
-    "Runtime crash-point enumeration: the ordered mutation trace (with call/ack markers) of seeded sessions (open, 1-5 puts, Finalize) x 8 option configurations x {blockstore traced through the verif hooks, storage on a tracing memfile} x {fresh file, resumed discarded file, resumed finalized file} is cut at EVERY event boundary and within every write at torn lengths {1, mid, len-1} (every byte in the thorough tier and in 1 of 8 quick cases); every crash image is reopened with the same roots/options and judged by acked-set bookkeeping: on error all acknowledged sections must remain intact in the file left behind; on success all acknowledged blocks are present with exact bytes, nothing never put is listed, in-flight blocks if present are intact, and after two more puts + Finalize the archive decodes strictly, verifies, holds all acknowledged + new blocks and nothing unknown, with exact index and header.",
+    "Runtime crash-point enumeration: the ordered mutation trace (with call/ack markers) of seeded sessions (open, 1-5 puts, Finalize) x 8 option configurations x {blockstore traced through the verif hooks, storage on a tracing memfile} x {fresh file, resumed discarded file, resumed finalized file} is cut at EVERY event boundary and within every write at torn lengths {1, mid, len-1} (every byte in the thorough tier and in 1 of 8 quick cases); every crash image is reopened with the same roots/options and judged by acked-set bookkeeping: on error all acknowledged sections must remain intact in the file left behind; on success all acknowledged blocks are present with exact bytes, nothing never put is listed, in-flight blocks if present are intact, and after two more puts + Finalize the archive decodes strictly, verifies, holds all acknowledged + new blocks and nothing unknown, with exact index and header. A strace cross-check runs sampled sessions in an untapped child and requires the kernel's pwrite64/ftruncate sequence on the file to equal the hook trace.",
     "crash model = prefix of the issued writes with the last write torn (no reordering); traces are checked for completeness against the final file; trusts refcar and the memfile/hook adapter",
     "runtime monitoring: exhaustive crash-image enumeration over the recorded write trace with acked-set oracle and reference decode", "DESIGN.md §6 C06")
 chk("C17", "exploration",
@@ -95,7 +95,7 @@ chk("C08", "exploration",
     "runtime monitoring: Go race detector + recorded-history linearizability checking (porcupine) + final-state conservation check", "DESIGN.md §6 C08")
 
 chk("C09", "exploration",
-    "Runtime totality/resource monitor in child processes: ~6k inputs (exhaustive typed mutations of reference-built v1/v2/index files: length varints ±1/x2/2^31..2^64-1, v2 header field extremes and overflows, index count/width/len extremes, zero-length sections, CID digest-length claims; the repository's fixtures and fuzz corpus; random mutations) x 49 entry points (block reader Next/SkipNext/mixed on 4 source kinds, Reader Roots/DataReader/IndexReader/Inspect, ReadVersion, GenerateIndex/LoadIndex into 3 index kinds from seekable and plain sources, ReadOrGenerateIndex, index.ReadFrom + queries, read-only blockstore and readable storage + queries, WrapV1, ExtractV1File, ReplaceRootsInFile, root CarReader and LoadCar) under small and default limits; each batch runs in a child under ulimit -v 4 GiB / ulimit -t with a start/done log so that a process-fatal error is attributed to its input; monitors: no panic / runtime fatal / CPU-limit kill, read-call budget and iteration cap (bounded progress), TotalAlloc delta ≤ header limit + section limit + 64·len + 256 KiB, canary calls at both ends of every batch, and a limit table (exactly-at-maximum accepted, maximum+1 rejected with the too-large error, giant length prefixes rejected with < 64 KiB allocated).",
+    "Runtime totality/resource monitor in child processes: ~6k inputs (exhaustive typed mutations incl. CBOR header length claims of reference-built v1/v2/index files: length varints ±1/x2/2^31..2^64-1, v2 header field extremes and overflows, index count/width/len extremes, zero-length sections, CID digest-length claims; the repository's fixtures and fuzz corpus; random mutations) x 50 entry points (block reader Next/SkipNext/mixed on 4 source kinds, Reader Roots/DataReader/IndexReader/Inspect, ReadVersion, GenerateIndex/LoadIndex into 3 index kinds from seekable and plain sources, ReadOrGenerateIndex, index.ReadFrom + queries, read-only blockstore and readable storage + queries, WrapV1, ExtractV1File, ReplaceRootsInFile, root CarReader and LoadCar) under small and default limits; each batch runs in a child under ulimit -v 4 GiB / ulimit -t with a start/done log so that a process-fatal error is attributed to its input; monitors: no panic / runtime fatal / CPU-limit kill, read-call budget and iteration cap (bounded progress), TotalAlloc delta ≤ header limit + section limit + 64·len + 256 KiB, canary calls at both ends of every batch, and a limit table (exactly-at-maximum accepted, maximum+1 rejected with the too-large error, giant length prefixes rejected with < 64 KiB allocated).",
     "'never fails to terminate' is decided as bounded progress (logical read budget, iteration cap, CPU-seconds fence; a wall-clock timeout is inconclusive); allocation measured by runtime.MemStats.TotalAlloc around each sequential call; finding keys name the innermost go-car frame of the dominant allocation / panic",
     "runtime monitoring: child-process execution with resource fences, allocation counters and exit-status/panic classification over structure-aware hostile inputs", "DESIGN.md §6 C09")
 
